@@ -18,7 +18,7 @@ for p in props:
             "evidence_file": f"/verif/evidence/{pid}.json",
             "replay_cmd_template": f"./check {pid} --replay {{path}}",
             "engine": "lean4-proof+correspondence",
-            "level_claimed": {"category": "proof", "text": c["explanation"], "design_ref": "DESIGN.md section 4 (" + pid + ")"},
+            "level_claimed": {"category": "proof", "text": c["explanation"], "design_ref": "DESIGN.md section 7 (" + pid + ")"},
             "level_note": "trusted: " + "; ".join(c["trusted_base"][:3]) + " | modelled rather than verified: " + "; ".join(c["modelled"])
                           + ((" | partial: " + "; ".join(c["partial"])) if c.get("partial") else ""),
             "technique": "Lean 4 theorems (kernel-checked, axiom-audited) over an executable model of the code + correspondence check of model and oracle against the real code (trace conformance under a deterministic controller / line-protocol differential / in-order revm oracle)",
